@@ -143,3 +143,19 @@ Definition mult_reset (mi : miter) : res miter :=
     let fits' := flat_map (fun r => match r with Ok f => [f] | _ => [] end) rs in
     Ok (mkMI fits' (mi_which mi) (map (last_of fits') (mi_which mi)) (mi_fit0 mi) false)
   else Panic.
+
+(* MultIterator.SetReverse / SetForward: every block iterator is switched (FlatIterator.SetReverse /
+   SetForward set the direction and Reset); the multi-iterator's own done flag and lastIndexArr
+   are left as they are *)
+Definition mult_set_dir (mi : miter) (rev : bool) : res miter :=
+  let rs := map (fun f => iter_set_dir f rev) (mi_fits mi) in
+  if forallb (fun r => match r with Ok _ => true | _ => false end) rs then
+    let fits' := flat_map (fun r => match r with Ok f => [f] | _ => [] end) rs in
+    Ok (mkMI fits' (mi_which mi) (mi_last mi) (mi_fit0 mi) (mi_done mi))
+  else Panic.
+
+(* MultIterator.Done: true iff every block iterator is done - and the answer is STORED in the
+   multi-iterator's own done flag, which Next consults *)
+Definition mult_done (mi : miter) : miter * bool :=
+  let d := forallb (fun f => it_done f) (mi_fits mi) in
+  (mkMI (mi_fits mi) (mi_which mi) (mi_last mi) (mi_fit0 mi) d, d).
